@@ -186,6 +186,7 @@ fn one_position<C: Autocomplete + Help>(sc: &Scenario, ff: &FaultFree, k: usize,
     }
     sink.0.borrow_mut().fault = fault;
     let mut fired = false;
+    let mut failed_op: Option<Op> = None;
     for (j, op) in sc.target.as_ref().unwrap().iter().enumerate() {
         let pre = rig.editor();
         let log0 = rig.proc.log.len();
@@ -200,6 +201,7 @@ fn one_position<C: Autocomplete + Help>(sc: &Scenario, ff: &FaultFree, k: usize,
             continue;
         }
         fired = true;
+        failed_op = Some(op.clone());
         rep.count("c14.positions_fired");
         // (1) that error is returned
         match r {
@@ -245,6 +247,28 @@ fn one_position<C: Autocomplete + Help>(sc: &Scenario, ff: &FaultFree, k: usize,
     }
     // ---- the sink is repaired; later input is decoded normally
     sink.0.borrow_mut().fault = Fault::None;
+    // "later input is decoded normally": decoding depends on the byte sequence only, so the other half of a CR LF / LF CR
+    // pair arriving after an Enter that failed is still the second half of that pair: no key, no output, no dispatch.
+    // (A terminator byte during which the sink was called at all was an Enter: a second half writes nothing.)
+    if let (Some(Op::Byte(b)), true) = (&failed_op, (case + k as u64) % 2 == 0) {
+        if *b == 0x0d || *b == 0x0a {
+            let other = if *b == 0x0d { 0x0a } else { 0x0d };
+            let pre = rig.editor();
+            let log0 = rig.proc.log.len();
+            let w0 = sink.0.borrow().bytes.len();
+            rep.evaluations += 1;
+            rep.count("c14.pair_completed_after_failed_enter");
+            if let Err(e) = rig.byte(other) {
+                fail(rep, "unusable-after-repair", sc.class, format!("the second half of the terminator pair after the repair returned {:?}", e));
+                return;
+            }
+            let wrote = sink.0.borrow().bytes.len() - w0;
+            if rig.proc.log.len() != log0 || wrote != 0 || rig.editor() != pre {
+                fail(rep, "later-input-not-decoded", "second-half-of-terminator-pair", format!("the Enter byte {:#04x} failed; the byte {:#04x} that completes the pair was then not ignored: {} bytes written, {} dispatch(es), line {:?}", b, other, wrote, rig.proc.log.len() - log0, show_bytes(&rig.editor().line)));
+                return;
+            }
+        }
+    }
     let before = rig.editor();
     let line_before = String::from_utf8(before.line.clone()).unwrap_or_default();
     let chars: Vec<char> = line_before.chars().collect();
